@@ -156,7 +156,7 @@ def c01(tier):
                "actually returned by IterateSATGen (thorough: CMSGen, UniGen, IterateGen) are checked the same way. Deductive links "
                "proved for all inputs by pyvc.wp: repetition windows (map_block_trial_ranges), applicability (applies_to_trial); "
                "cardinality/adder encodings are C10/C12.")
-    run_wp(ck, ["map_block_trial_ranges", "get_trial_numbers.window", "applies_to_trial"], budget_ms(tier), prefix="C01.link.")
+    run_wp(ck, ["map_block_trial_ranges", "get_trial_numbers.window", "applies_to_trial", "add_weight_constraint"], budget_ms(tier), prefix="C01.link.")
     ds = SC.design_space(tier, seed())
     strats = ["IterateSATGen"] + (["CMSGen", "UniGen", "IterateGen"] if tier == "thorough" else [])
     res = SC.run(ds, ["cnf"] + strats, dict(n=400 if tier == "quick" else 2000, model_limit=1500 if tier == "quick" else 6000))
@@ -1077,6 +1077,9 @@ def c23(tier):
                "with weights, and with every weighted level replaced by separately named weight-1 copies (derivation tables re-keyed) — and both are exhausted "
                "with IterateSATGen and RandomGen. Renaming the copies back, the sets of printed sequences must be equal; when the weighted factor is in every "
                "crossing each printed sequence is one solution (no extra distinct solutions), otherwise the multisets must be equal (copies are distinct solutions).")
+    # proved link: the counting requests of the crossing constraint (chunks of crossing_size*crossing_weight trials, EQ weight*crossing_weight per
+    # complete chunk, LT weight*crossing_weight+1 on a trailing partial chunk) — Cross.__add_weight_constraint for all inputs
+    run_wp(ck, ["add_weight_constraint"], budget_ms(tier), prefix="C23.link.")
     ds = [d for d in weighted_designs(tier, seed())]
     small = []
     for d in ds:
